@@ -110,7 +110,7 @@ class TaskAbort(BaseException):
 
 
 EXC_KINDS = [RuntimeError, TaskAbort, SystemExit, KeyboardInterrupt, StopIteration]
-KINDS = ['zero', 'sleep', 'select_t', 'select_none', 'block', 'raise', 'busy']
+KINDS = ['zero', 'sleep', 'sleep_past', 'select_t', 'select_none', 'block', 'raise', 'busy']
 
 
 def h_tasks(ctx, prog, lowprio=False):
@@ -141,6 +141,9 @@ def h_tasks(ctx, prog, lowprio=False):
         elif k == 'busy':
           # a long time slice: the clock moves on while this task runs (other tasks' deadlines may pass before the hub is consulted)
           clock.now = clock.now + ctx.int('busy_%d_%d' % (ti, si), 0, 8000); reqs[(ti, si)] = ('zero', clock.now, 0); got = yield 0
+        elif k == 'sleep_past':
+          # a wake-up time that has already passed (a fixed-rate loop that fell behind): nothing to wait for, but the slice is given up
+          reqs[(ti, si)] = ('zero', clock.now, 0); got = yield R.Sleep(clock.now - ctx.int('behind_%d_%d' % (ti, si), 1, 1000), absoluteTime=True)
         elif k == 'block': reqs[(ti, si)] = ('block', clock.now, None); got = yield False
         elif k == 'raise':
           # whatever a task raises - also exceptions outside the Exception hierarchy (a task calling sys.exit(), a library's BaseException subclass)
@@ -202,6 +205,12 @@ def h_tasks(ctx, prog, lowprio=False):
         if ok_shape:
           if rv[0]: ctx.check('task %d step %d: woken with exactly its ready fd' % (ti, si), list(rv[0]) == ['fd%d' % ti] and not rv[1] and not rv[2])
           else: ctx.check('task %d step %d: timed-out wait not resumed early' % (ti, si), d is not None and x[2] >= t0 + d)
+  if all(k in ('zero', 'sleep_past') for kinds in prog for k in kinds) and len(prog) == 2 and len(prog[0]) == len(prog[1]):
+    # both tasks are runnable all the time: the scheduler alternates between them - a task that yields (also by an overdue sleep) waits for
+    # the other one's step before it gets its next slice
+    order = [x[0] for x in trace]
+    ctx.check('two always-runnable tasks take turns', all(a != b for a, b in zip(order, order[1:])))
+    ctx.witness('fair')
   ctx.witness('done')
 
 
@@ -395,6 +404,7 @@ def obligations(tier):
   pairs += [(a, b) for a in range(10) for b in range(10) if (a, b) not in pairs and a <= b]
   if thorough: pairs += [(a, b) for a in range(10) for b in range(10) if a > b]
   for a, b in pairs: progs.append((singles[a], singles[b]))
+  progs += [(('sleep_past', 'sleep_past', 'sleep_past'), ('zero', 'zero', 'zero')), (('zero', 'sleep_past', 'zero'), ('sleep_past', 'zero', 'sleep_past'))]
   low = [(('zero', 'sleep', 'zero'), ('sleep', 'zero')), (('zero', 'zero'), ('zero', 'block')), (('zero', 'zero', 'zero'), ('zero', 'zero', 'zero'))]
   timers = [dict(recurring=False, cancel_after='never'), dict(recurring=False, cancel_after='cancel_before'), dict(recurring=True, cancel_after='never'),
             dict(recurring=True, cancel_after='return_false'), dict(recurring=True, cancel_after='cancel_at_3'), dict(recurring=True, cancel_after='returns_falsy'),
